@@ -1,0 +1,69 @@
+//go:build verif
+
+// Contracts for the deductive verifier in /verif (gocv). This file contains no executable
+// code: only the package clause and //@ comment blocks, read by the verifier when the
+// build tag "verif" is set. Keys are function names and construct ordinals, never lines.
+
+package desync
+
+//@ sort Bytes
+
+//@ spec func H(b Bytes) ChunkID
+//# the configured digest of a byte string (uninterpreted)
+
+//@ func (h HashAlgorithm) Sum(b) (r0)
+//@   pure
+//@   ensures r0 == H(bytes(b))
+
+//@ ghost var $sent int
+
+// ---------------------------------------------------------------------------- C17
+
+//@ func (s *fileSeedSegment) Validate
+//@   prop C17
+//@   nochecks make
+//@   pure
+//@   requires offsetsBounded(s.chunks)
+//@   ensures err == nil ==> chunksMatch(file, s.chunks)
+//@   loop 1: invariant chunksMatch(file, s.chunks[:$i])
+
+//# quantification is over absolute positions of the backing array (inrng/elem), so that the
+//# facts carry over to sub-slices without arithmetic on the bound variable
+//@ spec func offsetsBounded(cs []IndexChunk) bool = forall j int :: inrng(cs, j) ==> elem(cs, j).Start < 1<<62 && elem(cs, j).Size < 1<<62
+//@ spec func chunksMatch(f *os.File, cs []IndexChunk) bool = forall j int :: inrng(cs, j) ==> H(frange(f, elem(cs, j).Start, elem(cs, j).Size)) == elem(cs, j).ID
+//@ spec func indexLength(idx Index) int = ite(len(idx.Chunks) < 1, 0, idx.Chunks[len(idx.Chunks)-1].Start + idx.Chunks[len(idx.Chunks)-1].Size)
+
+//@ ghost var $done bool
+
+//@ func VerifyIndex
+//@   prop C17
+//@   requires n >= 1
+//@   requires offsetsBounded(idx.Chunks)
+//@   chan in: offsetsBounded(v)
+//@   ghost@entry $sent = 0
+//@   loop 2: invariant batch >= 0 && chunksNum == len(idx.Chunks) && i >= 0
+//@   loop 2: invariant ($sent == i && i <= chunksNum) || ($sent == chunksNum && i >= chunksNum)
+//@   assert@send:in i == $sent && i <= last && last < chunksNum && len(v) == last + 1 - i
+//@   ghost@send:in $sent = last + 1
+//@   ensures r0 == nil ==> $sent == len(idx.Chunks)
+//@   ensures r0 == nil ==> fmode(statOf(name)) & 67108864 != 0 || fsize(statOf(name)) == indexLength(idx)
+//# worker: every batch whose iteration completes was validated chunk by chunk, and the
+//# literal returns nil only by running off the end of the channel
+//@   lit 1: ghost@entry $done = false
+//@   lit 1: assert@loop1.iterend chunksMatch(f, c)
+//@   lit 1: ghost@loop1.exit $done = true
+//@   lit 1: ensures r0 == nil ==> $done
+
+// ---------------------------------------------------------------------------- shared interface contracts
+
+//# Progress bars only report progress: they do not touch index, chunk or file state.
+//@ func (pb ProgressBar) SetTotal(total)
+//@   pure
+//@ func (pb ProgressBar) Start()
+//@   pure
+//@ func (pb ProgressBar) Finish()
+//@   pure
+//@ func (pb ProgressBar) Add(n) (r0)
+//@   pure
+//@ func (pb ProgressBar) Set(n) (r0)
+//@   pure
